@@ -36,6 +36,12 @@ pub fn proj(v: &ReplicatedValue) -> Value {
     // projection that renders payloads only through the code under test is blind to a lossy encoding there
     // (both sides of a comparison would be rendered through the same loss).
     if let Value::Object(m) = &mut j { m.insert("_payload".to_string(), raw_payload(v)); }
+    // State that shows only in what the value does next: the tag an observed-remove set hands out for its next add, per
+    // replica (a set whose counters fell back re-issues a tag that a remove has already seen).
+    if let redis_sim::replication::state::CrdtValue::ORSet(o) = &v.crdt {
+        let next: BTreeMap<String, String> = (1..=4u64).map(|r| { let mut c = o.clone(); let t = c.add("\u{0}next-tag-probe".to_string(), redis_sim::replication::lattice::ReplicaId::new(r)); (r.to_string(), format!("{:?}", t)) }).collect();
+        if let Value::Object(m) = &mut j { m.insert("_next_tags".to_string(), serde_json::to_value(next).unwrap_or(Value::Null)); }
+    }
     j
 }
 fn raw_payload(v: &ReplicatedValue) -> Value {
